@@ -3,6 +3,7 @@
 package cl
 
 import (
+	"math"
 	"math/big"
 
 	"github.com/ohler55/slip"
@@ -44,6 +45,10 @@ func (f *Oneminus) Call(s *slip.Scope, args slip.List, depth int) (result slip.O
 	slip.CheckArgCount(s, depth, f, args, 1, 1)
 	switch ta := args[0].(type) {
 	case slip.Fixnum:
+		if ta == math.MinInt64 { // overflow, promote to a bignum
+			var z big.Int
+			return (*slip.Bignum)(z.Sub(big.NewInt(int64(ta)), big.NewInt(1)))
+		}
 		result = ta - 1
 	case slip.Octet:
 		result = ta - 1
